@@ -1271,3 +1271,46 @@ def prefilters(ctx, funcs, rule='DEFUSE'):
                           f"style, ...) is silently lost" if lacking else '',
                           key=f"{rule}|{fi.qualname}|prefilter|{const}|{rv.name}", where=loc(fi, node))
     return n
+
+
+def alias_grown_in_place(ctx, funcs, rule='DEFUSE'):
+    """`v = self.matches[0][1]` does not copy: `v += more` (or v.extend(...))
+    then grows the list that the object keeps, although `v` only looks like a
+    local working value (it is merely read afterwards: joined, iterated,
+    formatted).  Flagged when the alias is list-like in this function (it is
+    joined / iterated / measured) and is never stored back on purpose."""
+    n = 0
+    for fi in funcs:
+        alias = {}
+        for st in walk_local(fi.node):
+            if isinstance(st, ast.Assign) and len(st.targets) == 1 and isinstance(st.targets[0], ast.Name):
+                v, root, hops, sliced = st.value, st.value, 0, False
+                while isinstance(root, (ast.Attribute, ast.Subscript)):
+                    if isinstance(root, ast.Subscript) and isinstance(root.slice, ast.Slice):
+                        sliced = True
+                    root, hops = root.value, hops + 1
+                if isinstance(root, ast.Name) and root.id in ('self', 'cls') + tuple(fi.params()) and hops >= 1 and not sliced \
+                        and isinstance(v, (ast.Attribute, ast.Subscript)):
+                    alias[st.targets[0].id] = st
+        for st in walk_local(fi.node):
+            name = None
+            if isinstance(st, ast.AugAssign) and isinstance(st.op, ast.Add) and isinstance(st.target, ast.Name):
+                name = st.target.id
+            if name not in alias:
+                continue
+            listlike = any(
+                (isinstance(x, ast.Call) and isinstance(x.func, ast.Attribute) and x.func.attr == 'join'
+                 and any(isinstance(a, ast.Name) and a.id == name for a in x.args))
+                or (isinstance(x, (ast.For, ast.comprehension)) and isinstance(x.iter, ast.Name) and x.iter.id == name)
+                or (isinstance(x, ast.Call) and dotted(x.func) in ('len', 'sorted', 'list', 'tuple', 'set') and x.args
+                    and isinstance(x.args[0], ast.Name) and x.args[0].id == name)
+                for x in walk_local(fi.node))
+            n += 1
+            src = alias[name]
+            ctx.tri(False, listlike, rule, f"{fi.qualname}: `{norm(st)[:40]}` works on a copy",
+                    detail_bad=f"`{norm(src)[:60]}` binds `{name}` to the very list the object keeps, and `{norm(st)[:40]}` grows that "
+                               f"list in place: `{norm(src.value)}` now holds the added entries too (extra sections -> extra tracts "
+                               f"on the pass that merely wanted to report them)",
+                    key=f"{rule}|{fi.qualname}|alias-grown|{name}", where=loc(fi, st),
+                    why=f"`{name}` aliases `{norm(src.value)}` and is augmented; whether it is a list is not decided")
+    return n
